@@ -78,3 +78,7 @@ M("c12-close-drops-receivers-of-live-stream", "C12", MEM, "MemoryObjectSendStrea
   "            if self._state.open_send_channels == 0:\n                receive_events = list(self._state.waiting_receivers.keys())\n                self._state.waiting_receivers.clear()\n",
   "            receive_events = list(self._state.waiting_receivers.keys())\n            self._state.waiting_receivers.clear()\n            if self._state.open_send_channels == 0:\n", ["R12-e"])
 M("c12-close-clears-buffer", "C12", MEM, "MemoryObjectReceiveStream.close", "            self._state.open_receive_channels -= 1\n", "            self._state.open_receive_channels -= 1\n            self._state.buffer.clear()\n", ["R12-e"])
+
+# from seeded change C12/e (round 3)
+M("c12-receive-closed-check-after-wake", "C12", MEM, "MemoryObjectReceiveStream.receive",
+  "            try:\n                return receiver.item\n            except AttributeError:", "            if self._closed:\n                raise ClosedResourceError\n\n            try:\n                return receiver.item\n            except AttributeError:", ["R12-f"])
